@@ -11,7 +11,9 @@ import (
 var (
 	long200 = strings.Repeat("long-name-0123456789/", 9) + "tail-padding-xx" // 204 bytes, components <= 255
 	// hostileNames is the C02 name universe (DESIGN 5/C02).
-	hostileNames = []string{"a", "a/b", "a/b/c", "a b", "ä/ü.txt", "x%2Fy", "a+b", "dir/.hidden", "a..b", "q?x", "h#x", long200}
+	hostileNames = []string{"a", "a/b", "a/b/c", "a b", "ä/ü.txt", "x%2Fy", "a+b", "dir/.hidden", "a..b", "q?x", "h#x", long200,
+		// names that differ from a neighbour only by a suffix an implementation might use for its own temporary / backup / lock files
+		"a.tmp", "a/b.tmp", "a~", "a.bak", "a.lock", "a/b.part", ".a.swp"}
 	// verbNames contain the API's own verbs; generated unless the routing finding is open.
 	verbNames = []string{"docker/compose.yaml", "x/rewriteTo/y"}
 
@@ -227,7 +229,7 @@ func genUpload(r *common.Rand, o *progOpts, b, n string) *uploadSpec {
 // runStep draws one step from the weighted kinds, executes it and returns what it refuted ("" if nothing).
 func runStep(r *common.Rand, e *exec, o *progOpts) string {
 	total := 0
-	kinds := []string{"upload", "overwrite", "delete", "delete_absent", "patch", "patch_absent", "compose", "copy", "burst", "patch_burst", "patch_full", "noop"}
+	kinds := []string{"upload", "overwrite", "delete", "delete_absent", "patch", "patch_absent", "compose", "copy", "burst", "patch_burst", "patch_full", "bucket_cycle", "noop"}
 	for _, k := range kinds {
 		total += o.W[k]
 	}
@@ -259,6 +261,8 @@ func runStep(r *common.Rand, e *exec, o *progOpts) string {
 		return "", false
 	}
 	switch kind {
+	case "bucket_cycle":
+		return e.cycleBucket(b)
 	case "upload", "overwrite":
 		var n string
 		var ok bool
